@@ -229,11 +229,11 @@ def run_unit(tpl, scratch, tier, keep):
         if label is None and tag and tag.get('label'):
             label = tag['label']
         fn = (tag or {}).get('fn') or '?'
-        if label is None and 'decreases' in msg and line:
+        if label is None and ('decreases' in msg or 'termination' in msg.lower()) and line:
             # reported at the loop keyword / fn header: map to the first termination label that follows
-            for ln in range(line, min(line + 120, len(unit.tags))):
+            for ln in list(range(line, min(line + 120, len(unit.tags)))) + list(range(line - 1, max(0, line - 400), -1)):
                 tg = unit.tags[ln]
-                if tg and tg.get('label') and 'termination' in tg['label']:
+                if tg and tg.get('label') and 'termination' in tg['label'] and tg.get('fn') == fn:
                     label = tg['label']
                     break
         if label is None:
